@@ -133,5 +133,6 @@ def run(ck, facts, tier):
         c01_tables.run(ck, facts, cg, anchors, tier)
     prims.rule_delay(ck, facts, "C01.prims", want=("vm", "wasm"))
     prims.rule_array_index(ck, facts, "C01.prims")
+    prims.rule_null_array(ck, facts, "C01.prims")
     ck.not_decided("equality of outputs for a given program; register allocation, control-flow lowering and memory models are not compared")
     ck.not_decided("anything about wasmtime's execution of the emitted module")
